@@ -99,24 +99,28 @@ func runRace(cfg *Cfg) {
 	for _, t := range targets {
 		out.res.Programs++
 		for c := 0; c < vals; c++ {
-			g := &vval.GenOpts{MaxDepth: 3, Unknown: r.Bool(), EnumNums: enumNums(t), BigMaps: r.Chance(30)}
+			// incl. the Go-only degenerate states (nil elements, typed-nil oneof wrappers): reads must
+			// not "normalise" them either
+			g := &vval.GenOpts{MaxDepth: 3, Unknown: r.Bool(), EnumNums: enumNums(t), BigMaps: r.Chance(30), NilJunk: c%3 == 2}
 			v := g.Message(r, t.S, 0, 0)
 			msg := t.B.ToMessage(0, v)
+			twin := t.B.ToMessage(0, v) // identical, unshared: the sequential baseline never touches `msg`
 			if c%2 == 1 { // a message fresh from the decoder
 				b, err := proto.Marshal(msg)
 				fresh := t.B.ToMessage(0, vval.Empty(t.S, 0))
-				if err == nil && proto.Unmarshal(b, fresh) == nil {
-					msg = fresh
+				fresh2 := t.B.ToMessage(0, vval.Empty(t.S, 0))
+				if err == nil && proto.Unmarshal(b, fresh) == nil && proto.Unmarshal(b, fresh2) == nil {
+					msg, twin = fresh, fresh2
 				}
 			}
-			other := proto.Clone(msg)
+			other := proto.Clone(twin)
 			replay := "race " + t.Full + " " + v.String()
 			out.Case(replay, true)
 			if c == 0 && len(out.res.Samples) < 3 {
 				out.Sample(replay)
 			}
 			var want string
-			if p, pm := guard(func() { want = raceReadOps(t, msg, other, 0) }); p {
+			if p, pm := guard(func() { want = raceReadOps(t, twin, other, 0) }); p {
 				out.Violate("C11", "sequential-panic", "read-only ops panicked sequentially: "+firstLine(pm), replay)
 				continue
 			}
@@ -141,6 +145,9 @@ func runRace(cfg *Cfg) {
 			}
 			close(start)
 			wg.Wait()
+			if after := vval.Canon(t.S, 0, t.B.FromMessage(0, msg)).String(); after != vval.Canon(t.S, 0, t.B.FromMessage(0, twin)).String() && c%2 == 0 {
+				out.Violate("C11", "readers-changed-struct", "concurrent read-only operations changed the Go struct of the shared message", replay)
+			}
 			for k := 0; k < gor; k++ {
 				if pan[k] != "" {
 					out.Violate("C11", "concurrent-panic", "a concurrent reader panicked: "+firstLine(pan[k]), replay)
